@@ -1,7 +1,175 @@
+/-
+  Driver ops of work package D1 (C15 criteria omission, C16 preference reversal, C17 fatigue):
+  correspondence stages on `Float`, spec checkers on `Rat`.  Mirrors harness/main/c15.go … c17.go.
+-/
 import Rdm.Ops.Codec
+import Rdm.Model.BiasesA
+import Rdm.Spec.C15
+import Rdm.Spec.C16
+import Rdm.Spec.C17
 namespace Rdm.Ops
 open Rdm
+variable {α : Type} [Num α]
 
-def biasesAOps : List (String × (List SExp → R SExp)) := []
+def biasEpsF : Float := Num.ofConst Facts.choquetEps
+
+/-- `(ratio min max)` -/
+def decSplitCond (e : SExp) : R (SplitCond α) := do
+  match e with
+  | .list [r, lo, hi] => pure ⟨← r.asNum, ← lo.asInt, ← hi.asInt⟩
+  | _ => throw s!"bad split condition {e}"
+
+/-- `(id type (lo hi) ((alt value) ...))` -/
+def encReversed (r : Reversed α) : SExp :=
+  .list [SExp.str r.id, SExp.str r.type, .list [SExp.num r.range.1, SExp.num r.range.2], encNumMap r.vals]
+
+def decReversed (e : SExp) : R (Reversed α) := do
+  match e with
+  | .list [i, t, .list [lo, hi], m] =>
+    pure { id := ← i.asStr, type := ← t.asStr, range := (← lo.asNum, ← hi.asNum), vals := ← decNumMap m }
+  | _ => throw s!"bad reversed criterion {e}"
+
+/-- `(f co nc)` -/
+def encFatigueReport (r : FatigueReport α) : SExp := .list [SExp.num r.f, encAlts r.co, encAlts r.nc]
+def decFatigueReport (e : SExp) : R (FatigueReport α) := do
+  match e with
+  | .list [f, co, nc] => pure { f := ← f.asNum, co := ← decAlts co, nc := ← decAlts nc }
+  | _ => throw s!"bad fatigue report {e}"
+
+def encUnitR (r : R Unit) : SExp :=
+  match r with
+  | .ok _ => .list [.atom "ok"]
+  | .error _ => .list [.atom "err"]
+
+/-! ### correspondence stages -/
+
+/-- `(split-validate (ratio min max))` → `(ok)` | `(err)` — `criteria_splitting.Parse`'s validation -/
+def opSplitValidate (args : List SExp) : R SExp := do
+  match args with
+  | [c] =>
+    let c : SplitCond Float ← decSplitCond c
+    pure (encUnitR c.validate)
+  | _ => throw "split-validate: arity"
+
+/-- `(split (ratio min max) (crit...))` → `(ok ((left...) (right...)))` | `(err)` -/
+def opSplit (args : List SExp) : R SExp := do
+  match args with
+  | [c, cs] =>
+    let c : SplitCond Float ← decSplitCond c
+    let cs : List (Crit Float) ← decCrits cs
+    pure (encR (c.split cs) fun (l, r) => .list [encCrits l, encCrits r])
+  | _ => throw "split: arity"
+
+/-- `(order name dmp (draws...))` → `(ok (crit...))` | `(err)` -/
+def opOrder (args : List SExp) : R SExp := do
+  match args with
+  | [n, d, ds] =>
+    let dmp : DMP Float ← decDMP d
+    pure (encR (orderCriteria biasEpsF (← n.asStr) dmp (← decNums ds)) encCrits)
+  | _ => throw "order: arity"
+
+/-- `(omission-apply (ratio min max) ordering dmp (draws...))` → `(ok (dmp' (omitted...)))` | `(err)` -/
+def opOmissionApply (args : List SExp) : R SExp := do
+  match args with
+  | [c, n, d, ds] =>
+    let c : SplitCond Float ← decSplitCond c
+    let dmp : DMP Float ← decDMP d
+    pure (encR (omissionApply biasEpsF c (← n.asStr) dmp (← decNums ds)) fun (r, om) =>
+      .list [encDMP r, encCrits om])
+  | _ => throw "omission-apply: arity"
+
+/-- `(reversal-apply (ratio min max) ordering dmp (draws...))` → `(ok (dmp' (reversed...)))` | `(err)` -/
+def opReversalApply (args : List SExp) : R SExp := do
+  match args with
+  | [c, n, d, ds] =>
+    let c : SplitCond Float ← decSplitCond c
+    let dmp : DMP Float ← decDMP d
+    pure (encR (reversalApply biasEpsF c (← n.asStr) dmp (← decNums ds)) fun (r, rep) =>
+      .list [encDMP r, .list (rep.map encReversed)])
+  | _ => throw "reversal-apply: arity"
+
+/-- `(fatigue-apply name (value alpha multiplier queryNumber) fGo (scaling nonNeg) dmp (draws...))`
+    → `(ok (dmp' (f co nc)))` | `(err)`.
+    `const`: the ratio is computed by the model; `expFromZero`: `exp` is external, the blur stage takes
+    the ratio the implementation reported (`fGo`), the formula is checked by `check-c17-ratio`. -/
+def opFatigueApply (args : List SExp) : R SExp := do
+  match args with
+  | [n, .list [v, a, m, q], fgo, b, d, ds] =>
+    let name ← n.asStr
+    let fgo : Float ← fgo.asNum
+    let v : Float ← v.asNum
+    let a : Float ← a.asNum
+    let m : Float ← m.asNum
+    let q ← q.asInt
+    let fn : FatigueFn Float :=
+      if name == Facts.fatigueConst then .const v
+      else if name == Facts.fatigueExp then .expFromZero a m q
+      else .unknown name
+    let b : Bounding Float ← decBounding b
+    let dmp : DMP Float ← decDMP d
+    let ds : List Float ← decNums ds
+    -- the only law used of the external `exp`: at this call it returned what the code observed
+    let res := match fn with
+      | .expFromZero _ _ _ => fatigueBlur fgo b dmp ds ds
+      | fn => fatigueApply Float.exp fn b dmp ds
+    pure (encR res fun (r, rep) => .list [encDMP r, encFatigueReport rep])
+  | _ => throw "fatigue-apply: arity"
+
+/-! ### spec checkers (exact rationals, on the implementation's output) -/
+
+/-- `(check-c15-order (declared...) (ordered...))` -/
+def opCheckC15Order (args : List SExp) : R SExp := do
+  match args with
+  | [cs, os] =>
+    let cs : List (Crit Rat) ← decCrits cs
+    let os : List (Crit Rat) ← decCrits os
+    pure (.atom (if Spec.C15.orderIsPerm cs os then "ok" else "ordering-not-a-permutation"))
+  | _ => throw "check-c15-order: arity"
+
+/-- `(check-c15 ordering (ratio min max) cur res (omitted...) (ranked...))` -/
+def opCheckC15 (args : List SExp) : R SExp := do
+  match args with
+  | [n, c, cur, res, om, rk] =>
+    let c : SplitCond Rat ← decSplitCond c
+    let cur : DMP Rat ← decDMP cur
+    let res : DMP Rat ← decDMP res
+    pure (.atom (Spec.C15.explain (← n.asStr) c cur res (← decCrits om) (← rk.mapList decWCrit)))
+  | _ => throw "check-c15: arity"
+
+/-- `(check-c16 (ratio min max) (ordered...) cur res (reversed...))` -/
+def opCheckC16 (args : List SExp) : R SExp := do
+  match args with
+  | [c, os, cur, res, rep] =>
+    let c : SplitCond Rat ← decSplitCond c
+    let cur : DMP Rat ← decDMP cur
+    let res : DMP Rat ← decDMP res
+    pure (.atom (Spec.C16.explain c (← decCrits os) cur res (← rep.mapList decReversed)))
+  | _ => throw "check-c16: arity"
+
+/-- `(check-c17 f (scaling nonNeg) cur res (f co nc))` -/
+def opCheckC17 (args : List SExp) : R SExp := do
+  match args with
+  | [f, b, cur, res, rep] =>
+    let f : Rat ← f.asNum
+    let b : Bounding Rat ← decBounding b
+    let cur : DMP Rat ← decDMP cur
+    let res : DMP Rat ← decDMP res
+    pure (.atom (Spec.C17.explain f b cur res (← decFatigueReport rep)))
+  | _ => throw "check-c17: arity"
+
+/-- `(check-c17-ratio name (value alpha multiplier queryNumber) f)` -/
+def opCheckC17Ratio (args : List SExp) : R SExp := do
+  match args with
+  | [n, .list [v, a, m, q], f] =>
+    let ok := Spec.C17.ratioOk (← n.asStr) (← v.asNum) (← a.asNum) (← m.asNum) (← q.asInt) (← f.asNum)
+    pure (.atom (if ok then "ok" else "ratio-formula"))
+  | _ => throw "check-c17-ratio: arity"
+
+def biasesAOps : List (String × (List SExp → R SExp)) :=
+  [("split-validate", opSplitValidate), ("split", opSplit), ("order", opOrder),
+   ("omission-apply", opOmissionApply), ("reversal-apply", opReversalApply),
+   ("fatigue-apply", opFatigueApply),
+   ("check-c15-order", opCheckC15Order), ("check-c15", opCheckC15), ("check-c16", opCheckC16),
+   ("check-c17", opCheckC17), ("check-c17-ratio", opCheckC17Ratio)]
 
 end Rdm.Ops
